@@ -99,7 +99,7 @@ def evaluate(spec, hist, compare_admin=False):
             eop = dict(eop, _idx=i)
             steps = [eop]
             use_ov = ov
-            if k == "danger":
+            if k in ("danger", "at_dist"):
                 j = op["fire"]
                 fres = hist["results"][ti][j] if j < len(hist["results"][ti]) else None
                 if fres is None or fres.get("kind") != "ok":
@@ -158,6 +158,10 @@ def evaluate(spec, hist, compare_admin=False):
             if k == "zero":
                 if sres["kind"] == "ok":
                     ov["weapon_zero"][wid] = sres["digest"][1]
+                if not same and post.get("zero") is not None:
+                    # already reported: from here on follow the state the simulated history really has, so that one
+                    # divergence is not re-reported under misleading names by every later operation on this weapon
+                    ov["weapon_zero"][wid] = post.get("zero")
                 if res.get("kind") == "exc" and post.get("zero") != pre_zero:
                     viol.append(_v("zero.failed_attempt_changed_stored_zero", k, spec, ti, i,
                                    f"zeroing raised {res['digest'].get('exc')} but the stored zero went "
@@ -169,7 +173,7 @@ def evaluate(spec, hist, compare_admin=False):
                 viol.append(_v("zero.changed_by_non_zero_op", k, spec, ti, i,
                                f"stored zero changed {pre_zero} -> {post.get('zero')} by {k}"))
             if k == "powder" and sres["kind"] == "ok":
-                ov["ammo_tm"][str(op["ammo"])] = sres["digest"]
+                ov["ammo_tm"][str(op["ammo"])] = sres["digest"] if same or post.get("tm") is None else post.get("tm")
     return viol, stats
 
 
